@@ -160,6 +160,19 @@ func checkC01(c *core.Ctx) {
 		c01RunCases(c, sc, fc, cc, used)
 		c.Set("corpus_programs", len(cc))
 	}
+	// the scale family: one program per construct kind and size
+	if !c.Expired() && !c.TooManyViolations() {
+		sizes := []int{3, 9, 10, 11, 17, 33}
+		if c.Thorough() {
+			sizes = append(sizes, 65, 101, 130)
+		}
+		var cc []*c01Case
+		for _, k := range fo.ScaleCorpus(sizes) {
+			cc = append(cc, &c01Case{cs: k})
+		}
+		c01RunCases(c, sc, fc, cc, used)
+		c.Set("scale_family", map[string]any{"sizes": sizes, "programs": len(cc)})
+	}
 	// alphabet coverage: every production must have been used
 	hist := map[string]int64{}
 	var missing []string
